@@ -76,13 +76,13 @@ CLAIMS = {
         design_ref='5/C05',
         note='As C02 and C03; the composition of (1) and (2) along a whole circuit is argued in DESIGN.md, not yet one Coq theorem.'),
     'C06': dict(
-        technique='differential execution over all option / lane / code-path pairs; option-parametric Coq models tied by correspondence (no property-specific theorem yet)',
-        text='Proof (partial, weakest of the claimed checks): the Coq models of SimOps/LogicSim/WaveSim take c_reuse and strip_forks as '
+        technique='Coq proofs for the code-path / lane / release-order clauses + differential execution over all option pairs with option-parametric models',
+        text='Proof (partial). Proved: the mock-GPU launch runs every in-bounds kernel instance exactly once (so the GPU path applies the same per-element functions as the CPU loops), lane independence of the bit-parallel kernels, irrelevance of the order in which released memory is freed. Not a theorem: c_reuse / strip_forks / dataset invariance -- the Coq models of SimOps/LogicSim/WaveSim take c_reuse and strip_forks as '
              'parameters and are tied to the code for every setting (C01-C05, C08); invariance itself is decided by running the '
              'implementation against itself: c_reuse x strip_forks (zero delay on fork inputs), WaveSim vs WaveSimCuda, more lanes, lane '
              'permutations, c_prop(sims=j), delay-dataset modes 0/1.',
         design_ref='5/C06',
-        note='No theorem yet states option invariance; dataset mode 2 (random picking) and sd>0 capture are outside the claim.'),
+        note='No theorem yet states c_reuse/strip_forks invariance; dataset mode 2 (random picking) and sd>0 capture are outside the claim.'),
     'C07': dict(
         technique='differential execution with permuted schedules (op order inside levels, mock-GPU thread order) + independent schedule checker (no property-specific theorem yet)',
         text='Proof (partial): decided by executing LogicSim/WaveSim with the rows of every level permuted and WaveSimCuda with a permuted '
@@ -110,6 +110,26 @@ CLAIMS = {
              'in progress (Proofs/WaveEquiv.v, capture lemmas).',
         design_ref='5/C13',
         note='As C03; capture with sd>0 is outside the claim.'),
+    'C17': dict(
+        technique='Coq proof of Kahn-traversal theorems for all well-formed netlists over a Gallina transcription; exact-sequence correspondence; graph oracle',
+        text='Proof (traversals full, name lookup partial). For ALL well-formed netlists (pins may be unconnected, cut at state elements) the '
+             'transcription of topological_order yields every node at most once, sources first, every combinational driver before its '
+             'reader, and -- if the combinational part is acyclic -- every node exactly once; levels are the longest combinational '
+             'distance; line order covers every line once; reverse iteration is literally the forward traversal of the reversed graph '
+             '(so all facts mirror). The transcriptions are compared with the code as exact sequences on random graphs and origin sets. '
+             'fanin (sandwich statement) and the prefix lookup _locs are decided by oracles with ground truth, not by theorems.',
+        design_ref='5/C17',
+        note='Modelled not verified: the five traversal generators (Model/Netlist.v). Not modelled: the regular expression and nested sort of _locs.'),
+    'C19': dict(
+        technique='Coq proof by exhaustive evaluation of all cells regenerated from techlib.py against a datasheet-family specification; exhaustive correspondence with TechLib.cells',
+        text='Proof (full). All five library strings are re-extracted from techlib.py on every run and parsed into Gen/TechLibs.v; Coq proves '
+             'for every cell: each pin once, every name expands and no name is defined twice, every output defined; and for every purely '
+             'combinational cell whose name belongs to a family (AND/OR/NAND/NOR/XOR/XNOR-n, BUF/INV variants, AO/OA/AOI/OAI with the '
+             'library\'s pin grouping, MUX2/MUX4, half/full adders by pin name) all outputs equal the family function on all input rows, '
+             'evaluated with the simulator\'s own prefix table and LUTs. The translator is validated against TechLib.cells (names, pin '
+             'tables, LogicSim truth tables) exhaustively.',
+        design_ref='5/C19',
+        note='The family specification Model/TechlibSpec.v is trusted. Sequential, tristate, clock-gating, isolation, decoder, filler and tie cells get the pin theorems only.'),
 }
 
 NOT_YET = 'check not built yet in this session (see DESIGN.md section 8 build order); no claim is made'
